@@ -221,7 +221,7 @@ PROPS['C12'] = {
 PROPS['C08'] = {
     'level': 'proof',
     'level_text': 'Proof for the per-peer receive path: MsgBuffer, CryptoCore::decrypt/encrypt (buffer geometry) and PeerCrypto::{handle_message, decrypt_message, encrypt_message, send_message} verbatim in Verus: for EVERY well-formed buffer (any length incl. 0, any content) and every state of the peer object every callee precondition (index bounds, arithmetic, assert!) is established, i.e. no panic. The variable-length decoders behind the handshake marker (InitMsg::read_from, NodeInfo::decode, RotationMessage) are NOT decided.',
-    'verus': [{'unit': 'buffer'}],
+    'verus': [{'unit': 'buffer'}, {'unit': 'cloud', 'fns': ['GenericCloud::handle_net_message', 'GenericCloud::handle_message']}],
     'kani': {
         'files': {'src/crypto/core.rs': ['kani/coreblocks.rs.in', 'kani/core.rs']},
         'harnesses': [
@@ -247,7 +247,8 @@ CLB = 'cloud::__verif_cloudblocks::'
 PROPS['C13'] = {
     'level': 'proof',
     'level_text': 'Proof of the three per-function ingredients of switch learning: (1) Frame::parse yields the per-VLAN key (8-byte vid||mac for a 12-bit VLAN id != 0, 6-byte mac for untagged AND priority-tagged frames, PCP/DEI and nested tags ignored) for every frame (Kani, full content); (2) the learned entry is ClaimTable::cache (last writer wins, expires after the switch timeout, removed by housekeep when expired and by remove_claims when the peer goes) (Verus); (3) the mode table: learning exactly for switch (and normal/tap), never for hub/router (Kani block). The call site `if self.learning { self.table.cache(src, peer) }` is under contract in unit cloud (C10).',
-    'verus': [{'unit': 'table', 'fns': ['ClaimTable::cache', 'ClaimTable::housekeep', 'ClaimTable::remove_claims', 'ClaimTable::lookup', 'ClaimTable::new', 'lemma_.*']}],
+    'verus': [{'unit': 'table', 'fns': ['ClaimTable::cache', 'ClaimTable::housekeep', 'ClaimTable::remove_claims', 'ClaimTable::lookup', 'ClaimTable::new', 'lemma_.*']},
+              {'unit': 'cloud', 'fns': ['GenericCloud::handle_payload_from', 'GenericCloud::handle_message']}],
     'native_search': {r'table::.*': TABLE_MODEL},
     'kani': {
         'files': {'src/payload.rs': ['kani/payload.rs'], 'src/cloud.rs': ['kani/cloudblocks.rs.in']},
@@ -299,12 +300,30 @@ PROPS['C17'] = {
     ],
 }
 
+CLOUD_TRUSTED = [
+    'observable effects are modelled by two ghost logs (Device::written, Socket::sent) appended by Device::write / Socket::send; the traits are declared in the unit with exactly these contracts',
+    'opaque environment with ASSUMED frames (not typed by Verus: format!, hooks, HashMap iteration, SmallVec): GenericCloud::{add_new_peer, update_peer_info, remove_peer, connect_sock, broadcast_msg} do not write to the interface; remove_peer sends nothing',
+    'ASSUMED: PeerCrypto::handle_message never reports a handshake datagram as Message(_) (reading of handle_init_message)',
+    'HashMap<SocketAddr,_> through the vstd model (obeys_key_model::<SocketAddr>, builds_valid_hashers as axioms); HashMap::get_mut contract written in the unit',
+    'R4: GenericCloud/PeerData pruned to the fields the dispatch functions use; R1: self.config.call_hook(..) statement and log macros dropped; R5: NodeInfo::decode(Cursor::new(..)) replaced by an opaque call',
+]
+PROPS['C10'] = {
+    'level': 'proof',
+    'level_text': 'Proof (Verus, functions verbatim, environment opaque) of the isolation frame conditions: a payload received from a peer causes no datagram to leave the node (no relaying) and at most one interface write, byte-identical to the payload; only the DATA arm of handle_message writes to the interface; datagrams from addresses that are neither peers nor in a handshake never reach the interface, and if they are not handshake messages change nothing but counters; frames read from the own interface are never written back to it; send_msg sends nothing to a non-peer and at most one datagram, to the selected peer. NOT decided: exactly-once delivery to every selected peer (broadcast loop over a HashMap), byte-identity across the AEAD.',
+    'verus': [{'unit': 'cloud'}],
+    'trusted': CLOUD_TRUSTED,
+    'not_decided': [
+        'exactly-once delivery to every selected peer and to no other (GenericCloud::broadcast_msg iterates a HashMap: no iterator spec in this Verus)',
+        'byte-identical delivery end to end (crosses PeerCrypto::send_message / handle_message: buffer geometry is under C08, AEAD is an oracle)',
+        'control traffic (handshake replies, node info, connect attempts) is outside the claim: update_peer_info / add_new_peer may send',
+    ],
+}
+
 NOT_APPLICABLE = {
     'C01': 'needs Ed25519 unforgeability plus InitMsg::read_from / InitState::handle_init, which neither back end reaches (150-line TLV parser over Cursor/SmallVec; ring key objects); no contract within reach expresses it',
     'C05': 'all-schedules agreement and recovery of two retransmitting state machines plus a liveness bound: a protocol-level joint invariant and liveness, outside per-function contracts',
     'C07': 'invariant over the product of two RotationStates, eight key slots and in-flight messages with key identity defined through ECDH; liveness clause; not decidable by per-function contracts within reach',
     'C09': 'whole-history property of 2-3 nodes over hundreds of seconds; no function-level contract expresses it without being stronger than the property',
-    'C10': 'pending',
     'C14': 'convergence of N nodes is liveness over multi-node histories; the safety half lives in handle_init/connect (out of reach of both back ends)',
     'C15': 'pending',
     'C19': 'pending',
